@@ -122,7 +122,8 @@ def run_case(case):
         kind = case["kind"]
         reason = rng.choice(REASONS)
         rclass = REASONS.index(reason)
-        if case["seed"].endswith("7") and kind in ("push", "pull") and rclass == 6:
+        num_ = int("".join(ch for ch in case["seed"].split(":")[-1] if ch.isdigit()) or 0)
+        if (num_ // 2) % 3 == 1 and kind in ("push", "pull") and rclass == 6:         # (both implementations: the case number's parity selects the implementation)
             reason = b"L" * 70000        # a failure message longer than any FileSync data record (and than a small device's maxdata): still the failure's reason
             stats["very_long_reasons"] = 1
         plan.split_mode = rng.choice(["whole", "whole", "random", "bytes1" if len(reason) < 64 else "random"])
@@ -153,12 +154,25 @@ def run_case(case):
             nchunks = rng.choice([0, 1, 2, 3, 5, 8])
             size = max(0, nchunks * chunk - rng.choice([0, 1, 17]))
             point = rng.choice(["send", "done"] + ([("data", rng.randint(1, max(1, nchunks)))] if nchunks else []))
+            if not slow_send and not slow_dev and not dims.get("pace") and not plan.reply_first and len(reason) < 64 and num_ % 9 == 4:
+                # a device that acknowledges slowly (3 s per WRTE, each wait far below the 10 s limits) and rejects late, its FAIL in front of that WRTE's OKAY:
+                # the waits of a transfer are not added up
+                nchunks = rng.choice([6, 7, 8])
+                size = nchunks * chunk - 5
+                point = ("data", rng.choice([5, 6]))
+                sess.sim.okay_delay = 3.0
+                plan.early_reply = True
+                plan.hold_fail = False
+                stats["slow_acknowledgements"] = 1
+                slow_acks = True
+            else:
+                slow_acks = False
             plan.send_fail[b"/fail"] = (point, reason)
             if (size + len(reason) + nchunks) % 4 == 0:
                 # the device says it twice, or more bytes than the record's length field announces follow it: the first FAIL record is the failure
                 plan.fail_surplus = [wire.sync_fail(b"again: " + reason[:20]), b"\x00tail", wire.sync_fail(b"")][(size + nchunks) % 3]
                 stats["fails_followed_by_more_bytes"] = 1
-            plan.hold_fail = rng.random() < 0.3 and not slow_dev
+            plan.hold_fail = rng.random() < 0.3 and not slow_dev and not slow_acks
             if slow_send:
                 plan.early_reply = True        # the FAIL may overtake the OKAY of the WRTE that provoked it
                 stats["slow_sends"] = 1
@@ -265,7 +279,7 @@ def run_case(case):
         if not viol and sess.dev.available is not True:
             viol.append({"mechanism": "connection-dropped-by-failure", "detail": "%s: afterwards available=%r although only the transfer failed (nobody called close())" % (where, sess.dev.available)})
         # (every transport call costs a little virtual time: a reply cut into tens of thousands of tiny WRTEs legitimately takes a while; what is looked for is a wait for a timeout)
-        if dt > 1.0 + 4 * transports.CALL_DT * sess.core.calls_in_op + 2e-4 * len(sess.sim.dev_log) and not viol and not slow_send and not slow_dev and not dims.get("pace"):
+        if dt > 1.0 + 4 * transports.CALL_DT * sess.core.calls_in_op + 2e-4 * len(sess.sim.dev_log) and not viol and not slow_send and not slow_dev and not dims.get("pace") and not sess.sim.okay_delay:
             viol.append({"mechanism": "slow-failure", "detail": "%s: %.2f virtual seconds passed before the failure surfaced (timeouts are 10 s)" % (where, dt)})
         sample = {"case": case, "where": where, "outcome": out.brief(100)} if case["seed"][-1] == "3" and case["seed"][-2] in "pwl" else None
         return {"sig": sig, "violations": viol[:3], "stats": stats, "sample": sample}
